@@ -570,3 +570,35 @@ def c9f_results_folder(prog):
         if not seen or E.truncated:
             once('complete/previous-dropped', None, 'complete does not return the accumulated result', fn=c)
     return r
+
+
+@rule('I3', props=['C03', 'C09', 'C05'], floor={'all': 3, 'default': 2}, configs=('all', 'default'))
+def i3_result_selection(prog):
+    """Which archetypes a query result draws from is decided by `And<Views, Filter>` and nothing weaker: inside
+    every method (and closure) of the query result iterators — sequential Iter, parallel ParIter and its
+    consumer/folder — each evaluation of the registry filter on an archetype identifier has a filter type
+    that mentions both the iterator's Views and its Filter parameter. A shortcut that consults Filter alone
+    (e.g. a `count()` override summing archetype lengths) counts or yields entities that lack a viewed
+    component."""
+    r = Result()
+    OWNERS = ('query::result::iter::Iter', 'query::result::par_iter::ParIter', 'query::result::par_iter::ResultsFolder', 'query::result::par_iter::ResultsConsumer')
+    for f in prog.fns.values():
+        top = f
+        while top.kind == 'Closure' and top.parent in prog.fns:
+            top = prog.fns[top.parent]
+        imp = top.impl
+        if imp is None or not any(is_adt(imp['self'], o) for o in OWNERS):
+            continue
+        gnames = {g['name'] for g in imp['generics'] if g['kind'] == 'type'}
+        if not {'Views', 'Filter'} <= gnames:
+            continue
+        for b, t in f.body.calls(lambda c: c['name'] == 'filter' and 'registry::contains::filter' in c['path']):
+            g = [a for a in t['f']['args'] if a.get('k') != 'region']
+            ft = g[1] if len(g) > 1 else None
+            key = '%s::%s' % (ty_str(imp['self']).split('<')[0], top.name)
+            r.inst('%s filters with %s' % (key, ty_str(ft)))
+            names = ty_params(ft) if ft is not None else set()
+            if not ({'Views', 'Filter'} <= set(names)):
+                r.viol('I3', key + '/filter-without-views', f.loc(t['ln']),
+                       'archetypes are selected with %s, which does not include the iterator\'s Views: archetypes lacking a viewed component are counted or visited' % ty_str(ft))
+    return r
